@@ -340,16 +340,21 @@ theorem notIntegralNotInf_ok {env : Env} {a : Var} :
   · simp [hi]
   · simp only [hi, Bool.false_eq_true, ↓reduceIte, needReal_map_ok, Bool.not_eq_false', false_or]
 
+theorem halfIntView_real {v : PyVal} {x : Ext} (h : v.real? = some x) : halfIntView v = .ok (halfIntClose x) := by
+  cases v <;> simp_all [halfIntView, needReal, PyVal.real?, Except.map]
+
 theorem notHalfIntEither_ok {env : Env} {a b : Var} :
     (Pred.notHalfIntEither a b).eval env = .ok false ↔
-      ∃ l u, (env.v a).real? = some l ∧ (env.v b).real? = some u ∧ halfIntClose l = true ∧ halfIntClose u = true := by
-  simp only [Pred.eval, needReal, bind, Except.bind, pure, Except.pure]
-  cases (env.v a).real? with
-  | none => simp
-  | some l =>
-    cases hl : halfIntClose l with
-    | false => simp [hl]
-    | true => cases (env.v b).real? <;> simp [hl]
+      halfIntView (env.v a) = .ok true ∧ halfIntView (env.v b) = .ok true := by
+  simp only [Pred.eval, bind, Except.bind, pure, Except.pure]
+  cases halfIntView (env.v a) with
+  | error e => simp
+  | ok x =>
+    cases x with
+    | false => simp
+    | true => cases halfIntView (env.v b) with
+      | error e => simp
+      | ok y => cases y <;> simp
 
 theorem notFiniteDiff_ok {env : Env} {a b : Var} :
     (Pred.notFiniteDiff a b).eval env = .ok false ↔
@@ -369,6 +374,12 @@ theorem bounds_ok_iff (m : Mech) (env : Env) :
   · -- GeometricFolded
     show runChain env (_ :: baseBounds) = .ok () ↔ _ ∧ _
     rw [runChain_cons_ok, notHalfIntEither_ok, baseBounds_ok]
+    constructor
+    · rintro ⟨⟨h1, h2⟩, l, u, hl, hu, hn⟩
+      rw [halfIntView_real hl] at h1; rw [halfIntView_real hu] at h2
+      exact ⟨⟨l, u, hl, hu, by simpa using h1, by simpa using h2⟩, l, u, hl, hu, hn⟩
+    · rintro ⟨⟨l, u, hl, hu, c1, c2⟩, hb⟩
+      exact ⟨⟨by rw [halfIntView_real hl, c1], by rw [halfIntView_real hu, c2]⟩, hb⟩
   · -- Snapping
     show runChain env (baseBounds ++ [_]) = .ok () ↔ _ ∧ _
     rw [runChain_append_ok, runChain_cons_ok, notFiniteDiff_ok, baseBounds_ok, runChain_nil]
